@@ -154,6 +154,25 @@ def dir_cycle_tail(src, base, img):
     return ["directories %d and %d made each other's parent, directory %d (lower inode number) hangs below %d; all unlinked from the root (link counts consistent)" % (za, zb, zc, za)]
 
 
+def dotdot_case(src, base, img):
+    """ZY (the higher inode number) holds ZX (the lower one); '..' of ZY names /lost+found instead of the root; link counts
+    are what a literal count of the entries gives: only the '..'-names-the-parent clause is broken, and the directory is
+    passed through (as an ancestor of ZX) before its own turn in pass 3"""
+    shutil.copy(base, img)
+    env = e2v.tool_env(src)
+    dbg = os.path.join(src, "debugfs/debugfs")
+    e2v.sh([dbg, "-w", "-f", "-", img], input=b"mkdir ZX\nmkdir ZY\n", env=env, timeout=60)
+    fs = Fs(img)
+    root = {e[0]: e[1] for e in fs.dir_entries(2)}
+    zx, zy, lf = root[b"ZX"], root[b"ZY"], root[b"lost+found"]
+    rl, ll = fs.inode(2)["links"], fs.inode(lf)["links"]
+    cmds = ("ln <%d> <%d>/ZX\nunlink ZX\nunlink <%d>/..\nln <%d> <%d>/..\n" % (zx, zy, zx, zy, zx) +
+            "unlink <%d>/..\nln <%d> <%d>/..\n" % (zy, lf, zy) +
+            "sif <2> links_count %d\nsif <%d> links_count %d\nsif <%d> links_count 3\nsif <%d> links_count 2\n" % (rl - 2, lf, ll + 1, zy, zx))
+    e2v.sh([dbg, "-w", "-f", "-", img], input=cmds.encode(), env=env, timeout=60)
+    return ["directory %d moved below directory %d (a higher inode number), whose '..' entry is made to name /lost+found (%d) instead of the root; link counts follow the entries" % (zx, zy, lf)]
+
+
 def bigalloc_quota_lostfound(src, img):
     """bigalloc + quota, a directory with 2000 fifos whose inode is cleared: the repair has to grow /lost+found by whole
     clusters and charge them to the quota in cluster units"""
@@ -284,6 +303,10 @@ def one_case(src, idx, seed, tier, keep=False):
     elif idx == nd + 4 + 2 * len(corrupt.PAIRS) + 4 + len(corrupt.ORPHAN_VARIANTS) + 7:
         name, opts, size = "ext4_tea_unsigned_dup", ["-t", "ext4", "-b", "1024", "-N", "1024", "-O", "^metadata_csum"], "8M"
         desc = dup_names_case(src, img)
+    elif idx in (nd + 4 + 2 * len(corrupt.PAIRS) + 4 + len(corrupt.ORPHAN_VARIANTS) + 8, nd + 4 + 2 * len(corrupt.PAIRS) + 4 + len(corrupt.ORPHAN_VARIANTS) + 9):
+        name, opts, size = [c for c in corrupt.IMG_CONFIGS if c[0] == ("ext3" if idx % 2 == 0 else "ext4_1k")][0]
+        base = corrupt.build_image(src, WORK, name, opts, size, 1)
+        desc = dotdot_case(src, base, img)
     elif idx == nd + 4 + 2 * len(corrupt.PAIRS) + 4 + len(corrupt.ORPHAN_VARIANTS) + 5:
         # the listed known finding: i_file_acl of the orphan file inode beyond the end of the filesystem
         name, opts, size = [c for c in corrupt.IMG_CONFIGS if c[0] == "ext4_1k"][0]
